@@ -247,7 +247,7 @@ class C14(Check):
     rule = ('all 2^6 column-switch settings x colour {off,on} x all record streams of <=2 (quick) / <=3 (thorough) items over 9 kinds '
             '(syscalls on a declared and an undeclared thread, NEWTHREAD data/string, EXEC data/string, terminate-pid, sampler '
             'thread-data, unrelated record) x thread maps {empty, 1 entry, 2 entries, 3 entries whose tids collide with other entries\' pids, pids 2^31 and 2^32-1}, through formatted_kevents and '
-            'formatted_traces (+ one callstack dump through formatted_callstacks, one v3 log dump through formatted_logs); plus dump '
+            'formatted_traces (+ one callstack dump through formatted_callstacks, one v3 log dump through formatted_logs); plus the command-line tool\'s --show-tid / --color switches against the library; plus dump '
             'SEQUENCES: one parser object formats a first dump (1 item quick / <=2 thorough, any map) and then a second (<=2 items, '
             'any map) - the second dump\'s lines must equal a fresh object\'s. '
             'Oracle: line(config) == concatenation in fixed order of the single-column renderings; ANSI-stripped coloured line == '
@@ -268,6 +268,7 @@ class C14(Check):
         out += [('process', m, ch) for m in range(len(MAPS)) for ch in chunked(list(seqs(range(len(ALPHA)), L + 1)), 4)]
         out.append(('special',))
         out.append(('long',))
+        out.append(('cli',))
         out += [('sequence', m1, i) for m1 in range(len(MAPS)) for i in range(len(ALPHA))]
         return out
 
@@ -303,6 +304,27 @@ class C14(Check):
                     acc.case(nontrivial=True, transitions=2, outcome=h64((m, stride, 'long')))
                     if bad:
                         acc.violation(bad[0] + ':300-item-stream', {'kind': 'process', 'map': m, 'seq': list(seq)}, bad[1])
+        elif desc[0] == 'cli':
+            from mc.cli import run_cli
+            for m in range(len(MAPS)):
+                for seq in ((0, 2, 3, 1), (7, 8, 6, 4, 1), (5, 1, 0)):
+                    blob = dump(m, seq)
+                    for cmd, api in (('traces', 'formatted_traces'), ('kevents', 'formatted_kevents'), ('callstacks', 'formatted_callstacks')):
+                        for show_tid in (False, True):
+                            for color in ((False, True) if cmd == 'traces' else (None,)):
+                                args = [cmd] + (['--show-tid'] if show_tid else ['--no-show-tid']) + \
+                                       ([] if color is None else (['--color'] if color else ['--no-color']))
+                                code, got, exc = run_cli(blob, args)
+                                cfg = [True, True, True, show_tid, True, True]
+                                p = PyKdebugParser()
+                                p.color = True if color is None else color
+                                p.show_tid = show_tid
+                                exp = list(getattr(p, api)(io.BytesIO(blob)))
+                                exp = [l for x in exp for l in x.split('\n')]
+                                acc.case(nontrivial=True, transitions=2, outcome=h64((m, seq, cmd, show_tid, color)))
+                                if code != 0 or exc is not None or got != exp:
+                                    acc.violation('cli-lines-differ-from-library:' + cmd, {'kind': 'cli', 'map': m, 'seq': list(seq), 'args': args},
+                                                  {'exit': code, 'error': repr(exc)[:200], 'got': got[:2], 'expected': exp[:2]})
         elif desc[0] == 'sequence':
             _, m1, first = desc
             L = 1 if self.tier == 'quick' else 2
@@ -331,6 +353,11 @@ class C14(Check):
             bad, _ = judge_compose(dump(case['map'], tuple(case['seq'])), case['api'])
         elif k == 'process':
             bad = judge_process(case['map'], tuple(case['seq']))
+        elif k == 'cli':
+            from mc.run import Acc
+            acc = Acc()
+            self.run_shard(('cli',), acc)
+            return [(sig, v['cases'][0][1]) for sig, v in acc.violations.items()]
         elif k == 'sequence':
             bad = judge_sequence(case['m1'], tuple(case['seq1']), case['m2'], tuple(case['seq2']))
         elif k == 'callstacks':
